@@ -1,7 +1,7 @@
 #!/bin/sh
 # tools/ingest_seed.sh <ID> <slug> : verify a sub-agent's seeded change in its
 # scratch worktree /tmp/seed-<ID> and store it under /verif/seeded/<ID>-<slug>/
-ID="$1"; SLUG="$2"; W="/tmp/seed-$ID"; D="/verif/seeded/$ID-$SLUG"
+ID="$1"; SLUG="$2"; W="${3:-/tmp/seed-$ID}"; D="/verif/seeded/$ID-$SLUG"
 [ -f "$W/seed.patch" ] || { echo "no $W/seed.patch"; exit 2; }
 cd "$W" || exit 2
 # make sure the change is what is in the tree
